@@ -48,7 +48,9 @@ package db
 // (Frame report: FRAME-GAP -- the trusted extern of Decode says `modifies *` because its target is an `any`;
 // narrowing it to *b and the map's contents for THIS call is an assumption of this contract.)
 //@ func Body.Unmarshal
-//@   modifies *b, elems(*b), c19NumberMode
+//@   modifies *b, elems(*b), c19NumberMode, c19NumberDecoded
+//@   ensures[number-decoded] isNilErr(result) ==> (*b in c19NumberDecoded)
+//@   ensures[monotone]       subset(old(c19NumberDecoded), c19NumberDecoded)
 //@   before[number-mode] call Decode#1 $0 in c19NumberMode
 //@   ensures[empty-rejected] len(data) == 0 ==> !isNilErr(result)
 
@@ -170,15 +172,77 @@ package db
 // remaining FRAME-GAP is the cell of the local variable b, which Unmarshal writes through &b -- allocated in
 // this function, not visible to callers.)
 //@ func DocumentRevision.Body
-//@   modifies c19NumberMode, elems(Body)
+//@   modifies c19NumberMode, c19NumberDecoded, elems(Body)
 //@   ensures[error] !isNilErr(err) ==> b == nil
+//@   ensures[number-mode] isNilErr(err) ==> (b in c19NumberDecoded)
+
+//@ func DocumentRevision.MutableBody
+//@   modifies c19NumberMode, c19NumberDecoded, elems(Body)
+//@   ensures[error] !isNilErr(err) ==> b == nil
+//@   ensures[number-mode] isNilErr(err) ==> (b in c19NumberDecoded)
 
 // The mutable 1.x body is the decoded stored body plus reserved properties: _id and _rev are the revision's
 // own, _deleted is set for a tombstone; a failure yields (nil, err). (The writes go to the map Body() returned
 // and, for attachments, to the per-attachment metadata maps.)
 //@ func DocumentRevision.Mutable1xBody
 //@   requires rev != nil
-//@   modifies elems(Body), elems(map[string]any), c19NumberMode
+//@   modifies elems(Body), elems(map[string]any), c19NumberMode, c19NumberDecoded
 //@   ensures[error]   !isNilErr(err) ==> b == nil
+//@   ensures[number-mode] isNilErr(err) ==> (b in c19NumberDecoded)
 //@   ensures[id-rev]  isNilErr(err) ==> b != nil && b[BodyId] == box(rev.DocID) && b[BodyRev] == box(rev.RevID)
 //@   ensures[deleted] isNilErr(err) && rev.Deleted ==> b[BodyDeleted] == box(true)
+
+// ---- every stored revision body that is decoded into a Body map goes through the number-preserving decoder ----
+// (c19NumberDecoded, /verif/trusted/c19_bytes.spec: the maps produced by a decoder in number mode; replacing
+// body.Unmarshal by base.JSONUnmarshal / json.Unmarshal -- numbers as float64 -- fails these clauses.)
+
+// TRUSTED frame: looks the revision up in the tree and, for a body stored out of line, calls the loader
+// (a bucket read); it writes no gateway memory.
+//@ func RevTree.getRevisionBody
+//@   trusted
+//@   inert
+
+// The body of a losing branch that becomes the current revision is decoded in number mode
+// (promoteNonWinningRevisionBody hands exactly this result to doc.UpdateBody; it passes a loader function value
+// on, which the engine treats as a heap havoc, so the clause is stated here, on its only producer).
+//@ func Document.getNonWinningRevisionBody
+//@   modifies c19NumberMode, c19NumberDecoded, elems(Body)
+//@   ensures[number-mode] result != nil ==> (result in c19NumberDecoded)
+
+// deep copy of the current body for mutation (sync function input, import): decoded from the raw bytes in number mode
+//@ func Document.GetDeepMutableBody
+//@   requires doc != nil
+//@   modifies doc._rawBody, c19NumberMode, c19NumberDecoded, elems(Body)
+//@   ensures[error] !isNilErr(result1) ==> result0 == nil
+//@   ensures[number-mode] isNilErr(result1) ==> (result0 in c19NumberDecoded)
+
+// ---- BLIP: reserved properties in a pushed revision body ----
+// validateBlipBody looks for the bytes `"<prop>"` (or any backslash) in the raw body and parses (doc.Body) only then.
+// Property clause [reserved-rejected]: reserved properties a client must not set are rejected for EVERY JSON text --
+// when nil is returned the JSON text has none of the five reserved top-level members. It rests on
+//  * the loop invariant [checked] (every name already visited is not a top-level member),
+//  * the trusted JSON grammar fact c19_json_key_bytes (/verif/trusted/c19_bytes.spec): without a backslash a member
+//    name is written literally, so "no bytes `"p"` and no backslash" rules p out without parsing,
+//  * the trusted parse link on Document.Body (db/zz_verif_c09.go): the parsed map's keys are the top-level members.
+// It FAILED on the original code (pre-filter without the backslash test): {"\u005fid":"x"} has the top-level key _id
+// but not the bytes "_id" -- nil was returned and the revision was stored with _id/_rev/_deleted in its body. FIXED
+// (bytes.IndexByte(rawBody, '\\') >= 0 added to the pre-filter); demonstration
+// /verif/findings/C19_blip_escaped_reserved_key_test.go.
+// Precondition: the document's unparsed raw body IS rawBody. That is what the only caller does on the non-delta path
+// (blip_handler.go: newDoc.UpdateBodyBytes(bodyBytes) ... validateBlipBody(ctx, bodyBytes, newDoc)). On the delta
+// path the document holds the PATCHED map and rawBody is the delta text; the parse link does not apply there
+// (handleRev is not under contract).
+// [needle]: the needle handed to bytes.Contains is exactly `"` + prop + `"` (bytes, via string(...)), the haystack is
+// rawBody; [lit]: the five reserved names; [only-when-present], [rejected]: an error is produced exactly on a parsed
+// top-level hit and is a 404.
+//@ func validateBlipBody
+//@   requires doc != nil && doc._body == nil && doc._rawBody == rawBody
+//@   modifies doc._body
+//@   loop 1 invariant[idx] #index < 5
+//@   loop 1 invariant[lit] len(disallowed) == 5 && disallowed[0] == base.SyncPropertyName && disallowed[1] == BodyId && disallowed[2] == BodyRev && disallowed[3] == BodyDeleted && disallowed[4] == BodyRevisions
+//@   loop 1 invariant[doc] doc._rawBody == rawBody && (doc._body == nil || (forall k string :: {k in doc._body} (k in doc._body) <==> c19JSONHasKey(rawBody, k)) || (forall k string :: {c19JSONHasKey(rawBody, k)} !c19JSONHasKey(rawBody, k)))   // parsed map cached, or the text is not a JSON object (Body() returned nil)
+//@   loop 1 invariant[checked] forall i int :: {disallowed[i]} 0 <= i && i <= #index ==> !c19JSONHasKey(rawBody, disallowed[i])
+//@   before[needle]            call Contains#1 $0 == rawBody && string($1) == "\"" + prop + "\""
+//@   before[only-when-present] call NewHTTPError#1 $0 == 404 && (prop in callres(Body, 1, 0))
+//@   ensures[rejected]         !isNilErr(result) ==> httpStatus(result) == 404
+//@   ensures[reserved-rejected] isNilErr(result) ==> !c19JSONHasKey(rawBody, base.SyncPropertyName) && !c19JSONHasKey(rawBody, BodyId) && !c19JSONHasKey(rawBody, BodyRev) && !c19JSONHasKey(rawBody, BodyDeleted) && !c19JSONHasKey(rawBody, BodyRevisions)
